@@ -145,6 +145,10 @@ def main(tier: str) -> int:
                 one_grid(cls, left, right, list(bits), np.int8)
         # wide variables, sampled rows (16 bits as used for network weights)
         one_grid(cls, [-10.0, -10.0], [10.0, 10.0], [16, 16], np.int8, full=False)
+        # "every bits-per-variable vector": widths beyond 16 and beyond 32, sampled rows
+        one_grid(cls, [0.0], [1.0], [17], np.int8, full=False)
+        one_grid(cls, [-1.0, 2.0], [1.0, 3.0], [20, 3], np.float64, full=False)
+        one_grid(cls, [0.0], [8.0], [33], np.int8, full=False)
 
     # Gray adjacency through the public static methods
     for w in range(1, wmax + 1):
@@ -172,6 +176,13 @@ def main(tier: str) -> int:
         b = int(g.get_bits_per_variable()[0])
         hfit = float(g.get_h_per_variable()[0])
         chk.case(("bits_from_h", left, right, hreq))
+        # the grid fitted from a step is a grid in the sense of the first clause: all-ones -> right_border, outputs in the box
+        ones = g.transform(np.ones((1, 2 * b), dtype=np.int8))[0]
+        rnd = g.transform(np.array([[rng.randint(0, 1) for _ in range(2 * b)] for _ in range(16)], dtype=np.int8))
+        if not all(C.close(float(v), right, 1e-9, 1e-9) for v in ones) or np.any(rnd < left - 1e-9) or np.any(rnd > right + 1e-9) \
+                or not C.close(hfit, (right - left) / (2 ** b - 1), 1e-12, 1e-15):
+            chk.fail("a grid fitted from a step h does not end at right_border (all-ones string / outputs outside the box)",
+                     {"left": left, "right": right, "h": hreq, "bits": b, "h_fitted": hfit, "all_ones": [float(v) for v in ones]}, {"fn": "bits_from_h", "clause": "ones"})
         if not (hfit <= hreq * (1 + 1e-12) and b >= 1):
             chk.fail("the number of bits derived from a step h gives a coarser grid", {"left": left, "right": right, "h": hreq, "bits": b, "h_fitted": hfit}, {"fn": "bits_from_h"})
         ratio = (Fraction(right) - Fraction(left)) / Fraction(hreq) + 1
